@@ -33,6 +33,7 @@ HARNESS_FILES = {
     "source.rs": ("src/source.rs", "verif"),
     "config.rs": ("src/config.rs", "verif"),
     "error.rs": ("src/error.rs", "verif"),
+    "component.rs": ("src/component.rs", "verif"),
     "bitrepr.rs": ("src/component/bitrepr.rs", "verif"),
     "datatype.rs": ("src/component/datatype.rs", "verif"),
     "datatype_c18.rs": ("src/component/datatype.rs", "verif_c18"),
